@@ -1,4 +1,5 @@
 import TsVerif.C13.Props
+import TsVerif.C13.TreeLevel
 #print axioms TsVerif.C13.ranges_valid_iff
 #print axioms TsVerif.C13.set_ranges_accepts_iff
 #print axioms TsVerif.C13.set_ranges_reject_keeps
@@ -11,3 +12,6 @@ import TsVerif.C13.Props
 #print axioms TsVerif.C13.stream_concat
 #print axioms TsVerif.C13.stream_concat_text
 #print axioms TsVerif.C13.token_inside
+#print axioms TsVerif.C13.obs_eq
+#print axioms TsVerif.C13.driver_concat
+#print axioms TsVerif.C13.tree_shape_concat
